@@ -29,7 +29,8 @@ RULE = ("Hypothesis draws a non-negative count matrix (n in 1..7 quick / 1..12 t
         "of their own (sparse_arrays: same numbers as dense input, array flavour preserved).")
 ASSUMPTIONS = [
     "domain = ndarray, the eight scipy.sparse *_matrix classes and their *_array counterparts (clause sparse_arrays)",
-    "count dtypes int64, int32, float64 (float32 / small-int dtypes change the arithmetic precision and are not generated)",
+    "count dtypes int64, int32, int16, float64 (float32 counts carry float32 precision through both the dense and the sparse "
+    "path and are not generated)",
     "stationarity of normalize() and everything about mle() is asserted only on strongly connected (C + prior)",
     "when a prior is added to a sparse input any dense numpy result (ndarray, including the np.matrix scipy returns for "
     "spmatrix + ndarray) is accepted as 'legitimately densified'",
@@ -71,6 +72,10 @@ def builder_case(draw, n_max=7, builder_names=BUILDERS, container_names=None, eq
         mat = draw(R.count_matrices(n_min=1, n_max=min(n_max, mle_nmax), connected=True, max_ratio=100, dtypes=dtypes))
     else:
         mat = draw(R.count_matrices(n_min=1, n_max=n_max, connected=connected, dtypes=dtypes))
+    if mat["dtype"] in ("int32", "int64") and draw(st.integers(0, 4)) == 0 and \
+            max(max(r) for r in mat["C"]) * (2 * mat["n"] + 2) <= 32000:
+        # the same counts held in 16 bits (count matrices written to disk compactly): same numbers, same model
+        mat["dtype"] = "int16"
     if mat["flavour"] == "real" and draw(st.integers(0, 3)) == 0:
         # weighted / rescaled counts of tiny magnitude (every entry below 1e-8): the same model as for the unscaled counts
         mat["C"] = [[v * 1e-10 for v in row] for row in mat["C"]]
